@@ -19,12 +19,12 @@ LEVEL = "exploration"
 TECHNIQUE = "response-history checker under a controlled line-level scheduler (systematic schedules up to a preemption bound)"
 RULE = ("(enumeration modes: all1 = one preemption at every yield point; lock2 = two preemptions, both at lock-related lines or at a handler's run_step call; all2 = two preemptions anywhere) request kinds {run-step, run-steps(2), run-steps(3), stream-steps, stream-steps aborted by the client after the first chunk, "
         "run-steps whose settings make a step raise, stream-steps closed before the first chunk}; all 28 unordered pairs in modes all1+lock2 (thorough: also all2) and 4 triples (thorough: all 84) in mode lock2; "
-        "real locks of the instance are replaced by scheduler-aware locks; fresh instance and session per schedule. Plus, without scheduler, one client thread that reads a stream-steps response (with / without a body) lazily and sends run-step / run-steps / stream-steps (with and without a body) / an aborted stream between two of its chunks: all of them must be refused, the stream stays consecutive. "
+        "real locks of the instance are replaced by scheduler-aware locks; fresh instance and session per schedule. Plus, without scheduler, one client thread that reads a stream-steps response (with / without a body) lazily and sends run-step / run-steps / stream-steps (with and without a body) / an aborted stream between two of its chunks: all of them must be refused, the stream stays consecutive - also when a whole-server /save-state (file adapter) is served between two chunks; and after a stream-steps request that the handler rejects (body without settings, unparseable body) later stepping requests are admitted. "
         "distinct_nontrivial = distinct (request-kind combination, schedule) in which the second request observed the session between the "
         "first request's lock test and its last step (i.e. the check/lock window was entered).")
 ASSUMPTIONS = ["preemption at line boundaries of source-selected yield points only (no preemption inside a line)", "<=3 concurrent requests, Flask test client instead of a socket server",
                "a refused request (instance locked) is a correct outcome; the property constrains successful responses and the final state"]
-REQUIRED = {"same_thread_sequences": 30, "schedules": 150, "schedules_with_preemption": 100, "yield_points_hit": 3000, "window_entered": 20}
+REQUIRED = {"saves_during_stream": 5, "rejected_streams": 5, "same_thread_sequences": 30, "schedules": 150, "schedules_with_preemption": 100, "yield_points_hit": 3000, "window_entered": 20}
 BUDGET_S = {"quick": 115, "thorough": 2400}
 
 KINDS = ["step", "steps2", "steps3", "stream", "abort", "error", "abort0"]
@@ -55,6 +55,16 @@ def gen_cases(tier, seed):
                 cases.append(dict(mode="samethread", first=a, read=k_read, between=[b], seed=seed))
             for b1, b2 in (("step", "steps2"), ("stream-nobody", "step"), ("steps2", "stream"), ("step-nobody", "step-nobody"), ("abort", "step")):
                 cases.append(dict(mode="samethread", first=a, read=k_read, between=[b1, b2], seed=seed))
+    # a whole-server /save-state (external state adapter) between two chunks of a stream, followed by step requests
+    for a in ("stream", "stream-nobody"):
+        for k_read in (1, 3):
+            for b in (["save-state", "step"], ["save-state", "steps2"], ["save-state", "stream-nobody"], ["save-state"]):
+                cases.append(dict(mode="samethread", first=a, read=k_read, between=list(b), adapter=True, seed=seed))
+    # a stream-steps request that is rejected (body without settings / unparseable body): the instance stays usable
+    for bad in ("stream-bad-nosettings", "stream-bad-json"):
+        for after in (["step"], ["steps2"], ["stream"], ["step-nobody", "stream-nobody"]):
+            cases.append(dict(mode="samethread", first=None, read=0, between=["step", bad] + list(after), seed=seed))
+            cases.append(dict(mode="samethread", first=None, read=0, between=[bad] + list(after), adapter=True, seed=seed))
     K3 = 16
     for t in triples:
         for r in range(K3):
@@ -261,7 +271,9 @@ def run_samethread(case, counters):
     """No scheduler: one thread opens a stream-steps response, reads `read` chunks, sends the `between` requests, reads the rest."""
     from vlib import srv
     from BPTK_Py.bptk import bptk as B
-    app = srv.make_server(srv.bptk_factory(start=START, stop=STOP, dt=DT))
+    import tempfile
+    tmp = tempfile.mkdtemp(prefix="c18_", dir=".") if case.get("adapter") else None
+    app = srv.make_server(srv.bptk_factory(start=START, stop=STOP, dt=DT), state_dir=tmp)
     c = app.test_client()
     iid = json.loads(c.post("/start-instance", json={}).get_data(as_text=True))["instance_uuid"]
     c.post("/%s/begin-session" % iid, json={"scenario_managers": [srv.MG], "scenarios": [srv.SC], "equations": ["stock", "rate"]})
@@ -280,18 +292,40 @@ def run_samethread(case, counters):
             calls.append((cur[0], before, self.session_state["step"] if self.session_state else None, ok))
     B.run_step = run_step
     out = {}
-    kinds = ["stream"] + [("step" if b.startswith("step-") or b == "step" else "stream" if b.startswith("stream") else b) for b in case["between"]]
+    stepping = [b for b in case["between"] if b != "save-state" and not b.startswith("stream-bad")]
+    kinds = (["stream"] if case["first"] else []) + [("step" if b.startswith("step-") or b == "step" else "stream" if b.startswith("stream") else b) for b in stepping]
+    base = 1 if case["first"] else 0
+    rejected_ok = True
     try:
         cur[0] = 0
-        kw = {"json": {"settings": {}}} if case["first"] == "stream" else {}
-        r = c.post("/%s/stream-steps" % iid, buffered=False, **kw)
-        chunks, it = [], iter(r.response)
-        try:
-            for _ in range(1 + 2 * case["read"] - 1):       # "[", step, ",", step, ...
-                chunks.append(next(it))
-        except StopIteration:
-            pass
-        for j, b in enumerate(case["between"], 1):
+        r, chunks, it = None, [], iter(())
+        if case["first"]:
+            kw = {"json": {"settings": {}}} if case["first"] == "stream" else {}
+            r = c.post("/%s/stream-steps" % iid, buffered=False, **kw)
+            it = iter(r.response)
+            try:
+                for _ in range(1 + 2 * case["read"] - 1):       # "[", step, ",", step, ...
+                    chunks.append(next(it))
+            except StopIteration:
+                pass
+        j = base - 1
+        for b in case["between"]:
+            if b == "save-state":
+                rs = c.get("/save-state")
+                rs.get_data()
+                counters["saves_during_stream"] = counters.get("saves_during_stream", 0) + 1
+                continue
+            if b.startswith("stream-bad"):
+                # a request the handler rejects after (or before) it has looked at the lock
+                if b == "stream-bad-nosettings":
+                    rb = c.post("/%s/stream-steps" % iid, json={"flatResults": False})
+                else:
+                    rb = c.post("/%s/stream-steps" % iid, data="{not json", content_type="application/json")
+                rb.get_data()
+                rejected_ok = rejected_ok and rb.status_code >= 400
+                counters["rejected_streams"] = counters.get("rejected_streams", 0) + 1
+                continue
+            j += 1
             cur[0] = j
             if b == "step":
                 rb = c.post("/%s/run-step" % iid, json={"settings": {}})
@@ -316,13 +350,14 @@ def run_samethread(case, counters):
                 continue
             out[j] = (kinds[j], rb.status_code, rb.get_data(as_text=True))
         cur[0] = 0
-        try:
-            for ch in it:
-                chunks.append(ch)
-        except Exception as e:
-            chunks.append(("<stream failed: %r>" % e).encode())
-        r.close()
-        out[0] = ("stream", r.status_code, b"".join(x if isinstance(x, bytes) else x.encode() for x in chunks).decode())
+        if case["first"]:
+            try:
+                for ch in it:
+                    chunks.append(ch)
+            except Exception as e:
+                chunks.append(("<stream failed: %r>" % e).encode())
+            r.close()
+            out[0] = ("stream", r.status_code, b"".join(x if isinstance(x, bytes) else x.encode() for x in chunks).decode())
         cur[0] = -1
         follow = c.post("/%s/run-step" % iid, json={"settings": {}})
         follow = (follow.status_code, follow.get_data(as_text=True)[:200])
@@ -330,15 +365,24 @@ def run_samethread(case, counters):
     finally:
         B.run_step = orig
         srv.destroy_server(app)
+        if tmp:
+            import shutil
+            shutil.rmtree(tmp, True)
     counters["same_thread_sequences"] = counters.get("same_thread_sequences", 0) + 1
     kidx = [KINDS.index(k) for k in kinds]
     w = judge(kidx, out, calls, follow, final_clock)
-    if w is None and out[0][1] == 200:
+    if w is None and case["first"] and out[0][1] == 200:
         # while the first stream is unfinished every other stepping request must have been refused
         for j in range(1, len(kinds)):
             t = parse_steps(out[j][0], out[j][1], out[j][2])
             if t:
-                w = dict(kind="admitted-while-stream-in-progress", request=case["between"][j - 1], times=t)
+                w = dict(kind="admitted-while-stream-in-progress", request=stepping[j - 1], times=t)
+                break
+    if w is None and not case["first"]:
+        # nothing is in progress: a rejected request must not keep later stepping requests out
+        for j in range(len(kinds)):
+            if out[j][1] != 200 or "locked" in str(out[j][2])[:80]:
+                w = dict(kind="left-locked", after_rejected_request=True, request=stepping[j], status=out[j][1], body=str(out[j][2])[:120])
                 break
     if w is not None:
         w.update(case=case, responses={str(i): (out[i][0], out[i][1], out[i][2][:200]) for i in out}, follow=follow, calls=calls)
